@@ -214,6 +214,10 @@ func lexEventAttributes(l *Lexer) stateFn {
 func lexEventAttribute(l *Lexer) stateFn {
 	// d:date_happened|h:hostname|p:priority|t:alert_type|#tag1,tag2|c:container
 	switch b := l.next(); b {
+	case '|':
+		// empty field: the separator just read starts the next field, leave it to lexEventAttributes
+		l.pos--
+		return lexEventAttributes
 	case 'd':
 		return lexAssert(':', lexUint(func(l *Lexer, value uint64) stateFn {
 			if value > math.MaxInt64 {
